@@ -1862,7 +1862,7 @@ theorem handleData_extra (e : Engine) (bs : Bytes) (hinv : Inv e) (h : Extra fal
     split
     · exact h.halt
     · simp only []
-      have h1 : Inv { e with dec := (decodeBytes { version := e.cfg.version, maxSize := e.cfg.connect.maximumPacketSize.getD maxPacket } e.dec bs).dec } :=
+      have h1 : Inv { e with dec := (decodeBytes { version := e.cfg.version, maxSize := e.inboundMax } e.dec bs).dec } :=
         hinv.of_eq rfl rfl
       split
       · exact h.halt
